@@ -3,7 +3,7 @@
 # Applies the patch (or reverses the given fix commit) in a scratch worktree of /repo on tmpfs, runs the wider test
 # suite there, then runs the check against it.  Removes the worktree afterwards.
 set -u
-P=$1; PROP=$2; RUNS=${3:-0}
+P=$1; PROP=$2; RUNS=${3:-0}; case "$P" in REV:*) ;; /*) ;; *) P="$PWD/$P";; esac
 WT=/dev/shm/mut-$$
 git -C /repo worktree add -q --detach "$WT" HEAD || exit 9
 trap 'git -C /repo worktree remove --force "$WT" >/dev/null 2>&1; rm -rf "$WT"' EXIT
